@@ -54,6 +54,27 @@ type replayDoc struct {
 
 // RunE1 runs the pipeline and folds the outcomes into the report.
 func RunE1(c *Ctx, spec E1Spec) []*e1.Outcome {
+	// the quarantined input classes (known findings) are not part of any stream; the
+	// directed witness of a known finding runs only for the property that lists it
+	{
+		q := c.Rep.QuarantinedFeatures()
+		own := c.Rep.KnownCases()
+		var kept []*e1.Program
+		for _, p := range spec.Programs {
+			skip := false
+			for _, f := range p.Features {
+				if q[f] && !own[p.Name] {
+					skip = true
+				}
+			}
+			if skip {
+				c.Rep.Count("programs_in_quarantined_class_skipped", 1)
+				continue
+			}
+			kept = append(kept, p)
+		}
+		spec.Programs = kept
+	}
 	progs := spec.Programs
 	if c.Only != "" {
 		var sel []*e1.Program
@@ -171,6 +192,8 @@ func RunE1(c *Ctx, spec E1Spec) []*e1.Outcome {
 				"CR-full":   {"reference", "compiled"},
 				"CR-values": {"reference", "compiled"},
 				"SC-full":   {"stage-1 (unoptimised)", "optimised"},
+				"NC-full":   {"source built natively", "generated"},
+				"NC-values": {"source built natively", "generated"},
 				"STUB":      {"expected", "compiled"},
 				"POSTSTOP":  {"expected", "compiled"},
 			}[d.Kind]
